@@ -114,6 +114,10 @@ func c09Cmd(id quorumlog.CommandID) string { return hex.EncodeToString(id[:6]) }
 type c09Ckpt struct{ Epoch, LogStart, HW uint64 }
 type c09Ret struct{ Local, Physical, RetainedMax uint64 }
 type c09Point struct{ Epoch, Start uint64 }
+type c09Snap struct {
+	Epoch, End uint64
+	Payload    []byte
+}
 
 // c09State is the abstract durable state of one channel after a prefix of its
 // issued steps.
@@ -127,6 +131,7 @@ type c09State struct {
 	Props   []*c09Proposal // ascending LastOffset
 	Ents    map[uint64]quorumlog.EntryIdentity
 	Catalog bool
+	Snap    []byte // nil = no snapshot payload stored
 }
 
 func c09NewState() *c09State {
@@ -134,7 +139,7 @@ func c09NewState() *c09State {
 }
 
 func (s *c09State) clone() *c09State {
-	n := &c09State{LEO: s.LEO, Catalog: s.Catalog,
+	n := &c09State{LEO: s.LEO, Catalog: s.Catalog, Snap: s.Snap,
 		Rows: make(map[uint64]*c09Msg, len(s.Rows)+8), Ents: make(map[uint64]quorumlog.EntryIdentity, len(s.Ents)+8)}
 	for k, v := range s.Rows {
 		n.Rows[k] = v
@@ -264,6 +269,7 @@ func (s *c09State) cutHistory(to uint64) {
 
 type c09Step struct {
 	Kind string
+	Chan int
 	// Fail is non-empty for steps constructed to be rejected; they must leave
 	// no trace.
 	Fail string
@@ -289,6 +295,9 @@ type c09Step struct {
 
 	Keep      uint64
 	NewHW     uint64
+	Adopt     bool     // typed trim: the call also adopts the boundary
+	Snap      *c09Snap // snapshot install
+	CursorSeq uint64
 	pre       *c09State // model state the step was generated against
 	idx       int       // 1-based step index within its channel
 	batchable string
@@ -300,6 +309,40 @@ func (st *c09Step) desc() string {
 		d += "!" + st.Fail
 	}
 	return d + "/" + strconv.Itoa(st.Mode)
+}
+
+// detail renders the step parameters and the model state it was generated
+// against (witness text only).
+func (st *c09Step) detail() string {
+	var sb strings.Builder
+	fmt.Fprintf(&sb, "%s chan=%d step=%d", st.desc(), st.Chan, st.idx)
+	for i, p := range st.Props {
+		fmt.Fprintf(&sb, " prop%d=[%s n=%d]", i, c09ManString(p.Man), len(p.Msgs))
+		if i < len(st.Committed) {
+			fmt.Fprintf(&sb, " committed=%d", st.Committed[i])
+		}
+	}
+	if len(st.Msgs) > 0 {
+		fmt.Fprintf(&sb, " msgs=%d", len(st.Msgs))
+	}
+	if st.CkptFull != nil {
+		fmt.Fprintf(&sb, " ckpt=%+v", *st.CkptFull)
+	}
+	if st.CkptHW != nil {
+		fmt.Fprintf(&sb, " ckpthw=%d", *st.CkptHW)
+	}
+	if st.Point != nil {
+		fmt.Fprintf(&sb, " point=%+v", *st.Point)
+	}
+	if st.Snap != nil {
+		fmt.Fprintf(&sb, " snap=e%d/end%d/%dB", st.Snap.Epoch, st.Snap.End, len(st.Snap.Payload))
+	}
+	fmt.Fprintf(&sb, " adopt=%v cursor=%d", st.Adopt, st.CursorSeq)
+	fmt.Fprintf(&sb, " hw=%d to=%d hist=%v through=%d max=%d/%d keep=%d newhw=%d", st.HW, st.To, st.WithHist, st.Through, st.MaxMsgs, st.MaxBytes, st.Keep, st.NewHW)
+	if st.pre != nil {
+		fmt.Fprintf(&sb, " | pre: leo=%d ckpt=%v ret=%v hist=%v rows=%s props=%d", st.pre.LEO, st.pre.Ckpt, st.pre.Ret, st.pre.Hist, c09SeqList(st.pre.retainedSeqs()), len(st.pre.Props))
+	}
+	return sb.String()
 }
 
 // apply returns the model state after st (st.pre unchanged).
@@ -394,6 +437,10 @@ func (st *c09Step) apply() *c09State {
 	case "trim":
 		del, more := c09TrimPlan(s, st.Through, st.MaxMsgs, st.MaxBytes)
 		next := s.retOrZero()
+		if st.Adopt {
+			next.Local = max(next.Local, st.Through)
+			next.RetainedMax = max(next.RetainedMax, st.Through)
+		}
 		if s.LEO > next.RetainedMax {
 			next.RetainedMax = s.LEO
 		}
@@ -428,6 +475,18 @@ func (st *c09Step) apply() *c09State {
 		s.Catalog = true
 	case "epoch":
 		s.Hist = append(s.Hist, *st.Point)
+		s.Catalog = true
+	case "snapshot":
+		s.Snap = st.Snap.Payload
+		s.Ckpt = &c09Ckpt{Epoch: st.Snap.Epoch, LogStart: st.Snap.End, HW: st.Snap.End}
+		s.cutHistory(st.Snap.End)
+		if n := len(s.Hist); n == 0 || s.Hist[n-1] != *st.Point {
+			s.Hist = append(s.Hist, *st.Point)
+		}
+		s.Catalog = true
+	case "cursor":
+		c := st.CursorSeq
+		s.Cursor = &c
 		s.Catalog = true
 	default:
 		panic("c09: unknown step kind " + st.Kind)
@@ -547,6 +606,13 @@ func c09EntString(e quorumlog.EntryIdentity) string {
 		c09Cmd(e.CommandID), e.PreviousTerm, e.PreviousIndex, hex.EncodeToString(e.PreviousDigest[:4]), hex.EncodeToString(e.Digest[:6]))
 }
 
+func c09SnapString(p []byte) string {
+	if p == nil {
+		return "absent"
+	}
+	return fmt.Sprintf("%d:%x", len(p), c09FNV(p))
+}
+
 func c09SeqList(seqs []uint64) string {
 	var sb strings.Builder
 	for i := 0; i < len(seqs); {
@@ -641,6 +707,7 @@ func c09Expect(ch *c09Chan, s *c09State, u *c09Universe) map[string]string {
 		o["cno/"+no] = strings.Join(parts, ",")
 	}
 	o["catalog"] = strconv.FormatBool(s.Catalog)
+	o["snap"] = c09SnapString(s.Snap)
 	if ch.Exact {
 		var man quorumlog.ProposalManifest
 		var tail quorumlog.EntryIdentity
